@@ -116,12 +116,14 @@ def gen(spec):
         r = common.rng(spec["seed"], "C15rand", spec["chunk"])
         for _ in range(spec["n"]):
             n = r.randint(5, 8)
-            style = r.choice(["f%d", "dir/sub/file_%d.theo", "a long name with spaces %d", "%d"])
-            names = [style % i for i in range(n)]
+            style = r.choice(["f%d", "dir/sub/file_%d.theo", "a long name with spaces %d", "%d", "dir\\sub\\file_%d.theo", "back\\%d\\", "gr\xf6\xdfe %d.theo",
+                              "\xff%d\x80", "CASE"])
+            names = [style % i for i in range(n)] if style != "CASE" else ["inc", "Inc", "INC", "iNc", "inC", "InC", "INc", "iNC"][:n]
+            missing_ = r.choice(["missing1", "some/missing file.theo", "fehlt \xe4%d" % r.randint(0, 9), "not\\there", "MISSING1"])
             files = {}
             for i, nm in enumerate(names):
                 k = r.randint(0, 4)
-                ds = [r.choice(names + [nm, "missing1", "some/missing file.theo", None]) for _ in range(k)]
+                ds = [r.choice(names + [nm, "missing1", missing_, None]) for _ in range(k)]
                 if r.random() < 0.15:
                     ds.append(EOF_DIR)
                 files[nm] = body(nm, ds, marker="k%d_" % i, r=r)
